@@ -223,6 +223,15 @@ func (s *Server) DidClose(ctx context.Context, params *protocol.DidCloseTextDocu
 	s.docMu.Unlock()
 	s.payeeTemplatesCache.Delete(params.TextDocument.URI)
 	tokenCache.delete(params.TextDocument.URI)
+	if s.workspace != nil {
+		if path := uriToPath(params.TextDocument.URI); path != "" {
+			// unsaved edits are discarded: the file on disk is the content again
+			if data, err := os.ReadFile(path); err == nil {
+				s.workspace.UpdateFile(path, string(data))
+			}
+			s.loader.InvalidateFile(path)
+		}
+	}
 	return nil
 }
 
